@@ -20,7 +20,8 @@ META = {
                      "Client::data_get_public / data_get over a harness-served Network; every real encrypt and read is judged by TLC with the clause operators",
         "text": "The clauses (RoundTrip, ChunkBound, ContentAddressed, Deterministic, TooSmallRejected, OrderIndependent) are operators over observation records. TLC checks them on "
                 "every behaviour of the model and emits the completion schedules; the driver runs the real encrypt twice per input (boundary lengths min-1, min, 3M-1..3M+1, kM-1..kM+1, "
-                "the lengths where the serialised data map crosses one chunk into 2 and 3 levels; random / zero / periodic / text content) in two builds (MAX_CHUNK_SIZE 4096 in its own "
+                "the lengths where the serialised data map crosses one chunk into 2 and 3 levels, and seeded inputs swept until the serialised first-level data map is exactly "
+                "MAX-1, MAX and MAX+1 bytes; random / zero / periodic / text content) in two builds (MAX_CHUNK_SIZE 4096 in its own "
                 "target dir for multi-level trees, default 1 MiB for one-level trees), recomputes every chunk address with its own SHA3-256, and reads the data back through the real "
                 "client with the chunk fetches answered from memory in the scheduled order.",
         "note": _note + "; MAX_CHUNK_SIZE is a compile-time constant of self_encryption: multi-level trees are exercised only in the 4096-byte build",
@@ -222,6 +223,7 @@ def c14(v, w, thorough, replay):
     samples = []
     stats = []
     reads_by = {}
+    root_boundary = {}
     for trace, bld, batch in runs:
         rep = validate_trace("client", "ClientDataTrace", tcfg, trace, w, timeout=3000, heap="6g")
         events = read_ndjson(trace)
@@ -260,6 +262,13 @@ def c14(v, w, thorough, replay):
         for ln in rep.get("drift", []):
             e = events[ln - 1]
             v.drift.append({"trace": os.path.basename(trace), "line": ln, "ev": e["ev"], "why": e.get("why"), "maxout": e.get("maxout"), "batch": e.get("batch")})
+        for e in events:
+            if e["ev"] == "RootSweep":
+                hit = {}
+                for x in events:
+                    if x["ev"] == "Encrypt" and str(x.get("cls", "")).startswith("rootsz-") and x["call"] == 1:
+                        hit[x["cls"]] = {"len": x["len"], "seed": x["seed"], "rootsz": x["rootsz"], "levels": x["levels"], "res": x["res"]}
+                root_boundary[os.path.basename(trace)] = {"targets": e["targets"], "found_len": e["found"], "closest_miss": e["closest"], "tries": e["tries"], "judged": hit}
         calls = [e for e in events if e["ev"] in ("Encrypt", "Fetch")]
         nev += len(calls)
         for e in calls:
@@ -284,6 +293,7 @@ def c14(v, w, thorough, replay):
     v.cov["scenarios_from_tlc"] = nscn
     v.cov["reads_by_build_and_levels"] = reads_by
     v.cov["impl_stats"] = stats
+    v.cov["root_data_map_size_boundary"] = root_boundary
     v.cov["rule"] = ("a case is one real call: encrypt(bytes) (twice per input) or data_get_public/data_get of an encrypted input under one completion schedule; "
                      "distinct = distinct (build, length, content kind, seed) for encrypts and distinct (build, batch, input, api, realised pick sequence) for reads")
     v.cov["samples"] = samples
